@@ -27,6 +27,17 @@ package plonk
 //@   ensures[C02] @qcp-bound result == nil ==> boundQcp(fs, 0, "gamma", vk, len(vk.Qcp))
 //@   ensures[C02] @public-inputs-bound result == nil ==> forall k int :: 0 <= k && k < len(publicWitness) ==> titem(fs, 8 + len(vk.Qcp) + k) == bindItem("gamma", frItem(publicWitness[k]))
 //@   ensures[C02] @algebraic-relation result == nil ==> proof.BatchedProof.ClaimedValues[0] == fneg(fadd(fsub(fmul(fmul(fmul(fmul(fadd(fadd(l, fmul(beta, s1)), gamma), fadd(fadd(r, fmul(beta, s2)), gamma)), fadd(o, gamma)), alpha), zu), fmul(fmul(lagrangeZero, alpha), alpha)), pi))
+//   L1(zeta) and the linearised polynomial digest: exactly this multi-scalar multiplication, scalar by scalar
+//   (the two quotient scalars for a domain size below 2^63: the code converts the size to int64)
+//@   ensures[C02] @lagrange-zero result == nil ==> lagrangeZero == fmul(fmul(finv(fsub(zeta, f1)), fsub(fexp(zeta, vk.Size), f1)), vk.SizeInv)
+//@   ensures[C02] @lin-digest result == nil ==> isMsmG1(linearizedPolynomialDigest, points, scalars) && len(points) == len(proof.Bsb22Commitments) + 10 && len(scalars) == len(proof.Bsb22Commitments) + 10
+//@   ensures[C02] @lin-points result == nil ==> (forall k int :: 0 <= k && k < len(proof.Bsb22Commitments) ==> points[k] == proof.Bsb22Commitments[k]) && points[len(proof.Bsb22Commitments)] == vk.Ql && points[len(proof.Bsb22Commitments) + 1] == vk.Qr && points[len(proof.Bsb22Commitments) + 2] == vk.Qm && points[len(proof.Bsb22Commitments) + 3] == vk.Qo && points[len(proof.Bsb22Commitments) + 4] == vk.Qk && points[len(proof.Bsb22Commitments) + 5] == vk.S[2] && points[len(proof.Bsb22Commitments) + 6] == proof.Z && points[len(proof.Bsb22Commitments) + 7] == proof.H[0] && points[len(proof.Bsb22Commitments) + 8] == proof.H[1] && points[len(proof.Bsb22Commitments) + 9] == proof.H[2]
+//@   ensures[C02] @lin-scalars-qcp result == nil ==> forall k int :: 0 <= k && k < len(proof.Bsb22Commitments) ==> scalars[k] == proof.BatchedProof.ClaimedValues[6 + k]
+//@   ensures[C02] @lin-scalars-gates result == nil ==> scalars[len(proof.Bsb22Commitments)] == l && scalars[len(proof.Bsb22Commitments) + 1] == r && scalars[len(proof.Bsb22Commitments) + 2] == fmul(l, r) && scalars[len(proof.Bsb22Commitments) + 3] == o && scalars[len(proof.Bsb22Commitments) + 4] == f1
+//@   ensures[C02] @lin-scalars-perm result == nil ==> scalars[len(proof.Bsb22Commitments) + 5] == fmul(fmul(fmul(fmul(fadd(fadd(fmul(beta, s1), l), gamma), fadd(fadd(fmul(beta, s2), r), gamma)), beta), alpha), zu) && scalars[len(proof.Bsb22Commitments) + 6] == fadd(fmul(fmul(lagrangeZero, alpha), alpha), fneg(fmul(fmul(fmul(fadd(fadd(fmul(beta, zeta), gamma), l), fadd(fadd(fmul(fmul(beta, vk.CosetShift), zeta), gamma), r)), fadd(fadd(fmul(fmul(fmul(beta, vk.CosetShift), vk.CosetShift), zeta), o), gamma)), alpha)))
+//@   ensures[C02] @lin-scalars-zh result == nil ==> scalars[len(proof.Bsb22Commitments) + 7] == fneg(fsub(fexp(zeta, vk.Size), f1))
+//@   ensures[C02] @lin-scalars-h1 result == nil && vk.Size < 9223372036854775808 ==> scalars[len(proof.Bsb22Commitments) + 8] == fneg(fmul(fexp(zeta, vk.Size + 2), fsub(fexp(zeta, vk.Size), f1)))
+//@   ensures[C02] @lin-scalars-h2 result == nil && vk.Size < 9223372036854775808 ==> scalars[len(proof.Bsb22Commitments) + 9] == fneg(fmul(fmul(fexp(zeta, vk.Size + 2), fexp(zeta, vk.Size + 2)), fsub(fexp(zeta, vk.Size), f1)))
 //@   ensures[C02] @claimed-values-used result == nil ==> l == proof.BatchedProof.ClaimedValues[1] && r == proof.BatchedProof.ClaimedValues[2] && o == proof.BatchedProof.ClaimedValues[3] && s1 == proof.BatchedProof.ClaimedValues[4] && s2 == proof.BatchedProof.ClaimedValues[5] && zu == proof.ZShiftedOpening.ClaimedValue
 
 // the first eight items bound by bindPublicData, starting at position n0 of the transcript
